@@ -19,6 +19,9 @@ THEOREMS = {
     "C14_nav_targets_exist": "full",
     "C14_reachable": "full",
     "C14_reachable_ex": "example",
+    "C14_author_links": "full",
+    "C14_lookup_targets_written": "full",
+    "C14_author_links_hyp_ex": "example",
 }
 TRUSTED = [
     "Coq 8.16.1 kernel (coqc; vm_compute for the correspondence and the concrete examples only)",
